@@ -917,3 +917,624 @@ def c02f(chk):
                 ok = cap_prec and ret_plain
                 why = "closure captures self.precision=%s returns it unmodified=%s" % (cap_prec, ret_plain)
     chk.ob("C02.f", "Create::run/precision-passes-through-when-projecting", ok, f.loc(), why)
+
+
+# ====================================================================================
+# C10
+# ====================================================================================
+ADD_UNCHECKED = "sfs_core::spectrum::project::Projected::<'a>::add_unchecked"
+SUMMARIZE = "sfs::create::runner::Runner::summarize_skipped"
+WRITE_STDOUT = "sfs_core::spectrum::io::write::Builder::write_to_stdout"
+WRITE_PATH_OR_STDOUT = "sfs_core::spectrum::io::write::Builder::write_to_path_or_stdout"
+STAT_RUNNER_RUN = "sfs::stat::runner::Runner::<W>::run"
+RUNNER_STRUCT = "sfs::create::runner::Runner"
+
+
+def counter_increments(f, field):
+    """blocks performing `self.<field> = self.<field> + 1` (through the overflow-checked tuple)"""
+    out = []
+    bad = []
+    for b, i, p, rv, s in f.assigns():
+        cp = f.canon(p)
+        if an.self_field(cp) == field and len(cp[1]) == 2:
+            ok = False
+            src = rv
+            if rv["k"] == "use":
+                pl = op_place(rv["op"])
+                if pl and pl[1] and pl[1][0][0] == "field":
+                    sd = f.single_def(pl[0])
+                    if sd and sd[0] == "assign":
+                        src = sd[3]
+            if src["k"] == "binop" and src["op"] in ("AddWithOverflow", "Add"):
+                lp = op_place(src["l"])
+                if lp and an.self_field(f.canon(lp)) == field and const_val(src["r"]) == 1:
+                    ok = True
+            (out if ok else bad).append(b)
+    return out, bad
+
+
+def exactly_once_on_paths(f, start, header, events, exits_ok=True):
+    """every path start ->* header passes exactly one block of `events`"""
+    if start is None:
+        return False, "arm not found"
+    ev = set(events)
+    if not ev:
+        return False, "no event block"
+    # at least one: header unreachable from start when event blocks are removed
+    reach = f.reachable_from(start, avoid=ev | {header}) if start not in ev else set()
+    at_least = True
+    for b in reach:
+        if header in f.succ.get(b, []):
+            at_least = False
+    if start == header:
+        at_least = False
+    # at most one: from the successors of an event block, no other event block is reachable before header
+    at_most = True
+    for e in ev:
+        for s in f.succ.get(e, []):
+            r = f.reachable_from(s, avoid={header})
+            if r & ev:
+                at_most = False
+    return at_least and at_most, "at-least-one=%s at-most-one=%s" % (at_least, at_most)
+
+
+def check_C10(chk):
+    chk.explanation = (
+        "Structural clauses of C10: (a) in create::Runner::run every path of the read loop performs exactly one accounting event "
+        "(Standard +1.0 / Projected::add_unchecked / handle_skipped_site) under its own Site variant and exactly one `sites += 1`; "
+        "Done/Error/`?` paths leave the loop; handle_skipped_site increments `skipped` exactly once when not strict and returns Err without "
+        "counting when strict; (b) `strict` is read in exactly one place and the strict error names contig:position; (c) the summary is "
+        "emitted on the success path from `skipped` and `sites`; (d) the only stdout writer of `create` is reached after Runner::run()? and is "
+        "followed by nothing that can fail; stdout is touched in two functions only, print! nowhere; (e) main maps Err to a non-zero exit.")
+    chk.not_decided = "that a projected pmf sums to one (numeric), i.e. that E_proj has total weight 1"
+    c10a(chk)
+    c10b(chk)
+    c10c(chk)
+    no_partial_output(chk, "C10.d", CREATE_RUN, RUNNER_RUN, [WRITE_STDOUT])
+    who_may_write(chk, "C10.d")
+    exit_status(chk, "C10.e")
+    for r, n in (("C10.a", 10), ("C10.b", 3), ("C10.c", 2), ("C10.d", 5), ("C10.e", 2)):
+        chk.floor(r, n)
+
+
+def c10a(chk):
+    f = chk.fn(RUNNER_RUN)
+    if f is None:
+        return
+    if len(an.calls(f, READ_SITE)) != 1:
+        chk.fail("C10.a", "Runner::run/read_site-call", f.loc(), "expected one read_site call")
+        return
+    arms = runner_arms(chk, f)
+    if arms is None:
+        return
+    header = arms["read_site_bb"]
+    scs = arms["scs"]
+    ev = {"Standard": [], "Projected": [], "InsufficientData": []}
+    stray = []
+    for b, t in f.calls():
+        c = t["callee"]
+        uses_scs = any(_points_to_local(f, a, scs) for a in t["args"])
+        kind = None
+        if uses_scs and callee_is(c, N.INDEX_MUT, N.ADD_ASSIGN):
+            kind = "Standard"
+        elif uses_scs and callee_is(c, ADD_UNCHECKED):
+            kind = "Projected"
+        elif callee_is(c, HANDLE_SKIPPED):
+            kind = "InsufficientData"
+        elif uses_scs and f.reaches(header, b) and f.reaches(b, header):
+            stray.append((b, callee_name(c)))
+        if kind:
+            chk.saw_calls()
+            ok = an.dominated_by_edge(f, arms["site_sw"], arms[kind], b)
+            chk.ob("C10.a", "Runner::run/event(%s)/under-own-variant" % kind, ok, f.loc(b),
+                   "the accounting event for Site::%s must be dominated by that variant's edge" % kind)
+            ev[kind].append(b)
+    chk.ob("C10.a", "Runner::run/no-stray-spectrum-use-in-loop", not stray, f.loc(), "other uses of the spectrum inside the loop: %s" % stray)
+    for kind in ("Standard", "Projected", "InsufficientData"):
+        ok, why = exactly_once_on_paths(f, arms[kind], header, ev[kind])
+        chk.ob("C10.a", "Runner::run/arm(%s)/exactly-one-event" % kind, ok, f.loc(arms[kind]) if arms[kind] is not None else f.loc(),
+               "every path from the %s arm back to read_site passes exactly one accounting event (%s)" % (kind, why))
+    inc, bad = counter_increments(f, "sites")
+    chk.ob("C10.a", "Runner::run/sites-writes-are-increments", not bad and bool(inc), f.loc(), "every write of self.sites must be `sites = sites + 1` (other writes in blocks %s)" % bad)
+    ok, why = exactly_once_on_paths(f, arms["Read"], header, inc)
+    chk.ob("C10.a", "Runner::run/Read/exactly-one-sites-increment", ok, f.loc(arms["Read"]),
+           "every path from a successfully read record back to read_site increments self.sites exactly once (%s)" % why)
+    # leaving paths
+    for nm in ("Done", "Error"):
+        tgt = arms[nm]
+        r = f.reachable_from(tgt)
+        leaves = header not in r
+        chk.ob("C10.a", "Runner::run/%s-leaves-loop" % nm, leaves, f.loc(tgt), "the %s arm must leave the read loop" % nm)
+    # Error arm returns Err
+    r = f.reachable_from(arms["Error"])
+    err = any(rv["k"] == "aggregate" and rv.get("variant") == "Err" and P(s["place"])[0] == 0 for b in r for s in f.stmts(b) if s["k"] == "assign" for rv in [s["rv"]])
+    oks = any(rv["k"] == "aggregate" and rv.get("variant") == "Ok" and P(s["place"])[0] == 0 for b in r for s in f.stmts(b) if s["k"] == "assign" for rv in [s["rv"]])
+    chk.ob("C10.a", "Runner::run/Error-returns-Err", err and not oks, f.loc(arms["Error"]), "a reader error must end the run with Err and never reach Ok(scs)")
+    # `?` on handle_skipped_site: the Break edge returns
+    for b in ev["InsufficientData"]:
+        tb = an.try_branch_of(f, b)
+        ok = False
+        if tb:
+            _, sb, cont, brk = tb
+            ok = header not in f.reachable_from(brk) and header in f.reachable_from(cont)
+        chk.ob("C10.a", "Runner::run/handle_skipped_site?-propagates", ok, f.loc(b), "the Result of handle_skipped_site must go through `?`: Err leaves the loop, Ok continues")
+    # handle_skipped_site
+    h = chk.fn(HANDLE_SKIPPED)
+    if h is None:
+        return
+    strict_sw = None
+    for b, t in h.switches():
+        s = an.switch_subject(h, b)
+        if s["kind"] == "value" and s["root"] is not None:
+            d = h.single_def(s["root"])
+            if d and d[0] == "assign" and d[3]["k"] == "use":
+                p = op_place(d[3]["op"])
+                if p and an.self_field(h.canon(p)) == "strict":
+                    strict_sw = b
+    if strict_sw is None:
+        chk.fail("C10.a", "handle_skipped_site/strict-switch", h.loc(), "switch on self.strict not found")
+        return
+    st = h.term(strict_sw)
+    t_strict = st["otherwise"]
+    t_lenient = an.edge_target(st, 0)
+    inc, bad = counter_increments(h, "skipped")
+    chk.ob("C10.a", "handle_skipped_site/skipped-writes-are-increments", not bad and bool(inc), h.loc(), "every write of self.skipped must be `skipped = skipped + 1`")
+    rets = h.return_blocks()
+    ret = rets[0] if rets else None
+    ok, why = exactly_once_on_paths(h, t_lenient, ret, inc) if ret is not None else (False, "no return")
+    chk.ob("C10.a", "handle_skipped_site/lenient/exactly-one-skipped-increment", ok, h.loc(t_lenient), "non-strict path counts the skipped site exactly once (%s)" % why)
+    lr = h.reachable_from(t_lenient)
+    sr = h.reachable_from(t_strict, avoid={ret} if ret is not None else ())
+    def assigns_ret(blocks, variant):
+        return any(s["k"] == "assign" and P(s["place"])[0] == 0 and s["rv"]["k"] == "aggregate" and s["rv"].get("variant") == variant for b in blocks for s in h.stmts(b))
+    chk.ob("C10.a", "handle_skipped_site/lenient-returns-Ok", assigns_ret(lr, "Ok") and not assigns_ret(lr - sr, "Err"), h.loc(t_lenient), "non-strict path returns Ok(())")
+    chk.ob("C10.a", "handle_skipped_site/strict-returns-Err-without-counting", assigns_ret(sr, "Err") and not assigns_ret(sr, "Ok") and not (set(inc) & sr), h.loc(t_strict),
+           "strict path returns Err and performs no skipped increment")
+    chk.extra["strict_switch"] = h.loc(strict_sw)
+
+
+def field_reads(prog, adt, field):
+    """(fn, bb, what) for every read of adt.field anywhere in the workspace (operands, refs, discriminants)"""
+    out = []
+
+    def mentions(p):
+        return any(e[0] == "field" and e[3] == adt and e[2] == field for e in p[1])
+    for f in prog.fn_list:
+        if f.derived:
+            continue
+        for b in f.nodes():
+            for s in f.stmts(b):
+                if s["k"] != "assign":
+                    continue
+                rv = s["rv"]
+                ps = []
+                if rv["k"] in ("ref", "rawptr", "discr"):
+                    ps.append(P(rv["place"]))
+                from facts import rv_operands
+                for o in rv_operands(rv):
+                    p = op_place(o)
+                    if p:
+                        ps.append(p)
+                for p in ps:
+                    if mentions(p):
+                        out.append((f, b, "read"))
+            t = f.term(b)
+            ops = []
+            if t["k"] == "call":
+                ops = list(t["args"])
+            elif t["k"] == "switch":
+                ops = [t["discr"]]
+            for o in ops:
+                p = op_place(o)
+                if p and mentions(p):
+                    out.append((f, b, "read"))
+    return out
+
+
+def fmt_arg_sources(f, fmt_term):
+    """for an Arguments::new call: the set of callee names / self fields the displayed values slice back to"""
+    srcs = set()
+    sl, info = f.slice_locals(fmt_term["args"][1])
+    for _, t in info["calls"]:
+        srcs.add(callee_name(t["callee"]))
+    for (adt, fld) in info["fields"]:
+        srcs.add("field:%s" % fld)
+    return srcs
+
+
+def c10b(chk):
+    reads = field_reads(chk.prog, RUNNER_STRUCT, "strict")
+    where = sorted({fn.path for fn, b, w in reads})
+    chk.ob("C10.b", "Runner.strict/read-in-one-place", len(reads) == 1 and where == [HANDLE_SKIPPED], "",
+           "Runner.strict must be read exactly once, in handle_skipped_site, so strict and non-strict runs cannot differ otherwise (reads: %s)" % [(fn.path, fn.loc(b)) for fn, b, w in reads])
+    h = chk.fn(HANDLE_SKIPPED)
+    if h is None:
+        return
+    # strict error message arguments
+    found = False
+    for b, pieces, phs, t in an.format_calls(h):
+        # the format feeding format_err/anyhow on the strict path
+        d = an.call_dest_local(t)
+        feeds_err = False
+        for b2, t2 in h.calls():
+            if (callee_name(t2["callee"]).startswith("anyhow::")) and any(op_local(a) is not None and h.copy_root(op_local(a)) == d for a in t2["args"]):
+                feeds_err = True
+        if not feeds_err:
+            continue
+        found = True
+        srcs = fmt_arg_sources(h, t)
+        ok = "sfs_core::input::site::reader::Reader::current_contig" in srcs and "sfs_core::input::site::reader::Reader::current_position" in srcs and len(phs) >= 2
+        chk.ob("C10.b", "handle_skipped_site/strict-error-names-contig-and-position", ok, h.loc(b),
+               "the strict-mode error must display current_contig() and current_position() (sources: %s)" % sorted(srcs))
+    if not found:
+        chk.fail("C10.b", "handle_skipped_site/strict-error-names-contig-and-position", h.loc(), "no formatted anyhow error found")
+    # the two accessors are evaluated for the *current* record: they are called on self.reader in this function
+    cc = an.calls(h, "sfs_core::input::site::reader::Reader::current_contig") + an.calls(h, "sfs_core::input::site::reader::Reader::current_position")
+    ok = len(cc) == 2 and all(an.self_field(an.arg_pointee(h, t, 0) or (0, ())) == "reader" for _, t in cc)
+    chk.ob("C10.b", "handle_skipped_site/accessors-on-self.reader", ok, h.loc(), "contig/position are read from self.reader at the time of the skip (no deferred error state)")
+    # no field other than `skipped` is written here (no deferred state)
+    w = {fld for fld, how, b in an.self_field_writes(chk.prog, h)}
+    chk.ob("C10.b", "handle_skipped_site/writes-only-skipped", w <= {"skipped"}, h.loc(), "fields written: %s" % sorted(w))
+
+
+def c10c(chk):
+    f = chk.fn(RUNNER_RUN)
+    s = chk.fn(SUMMARIZE)
+    if f is None or s is None:
+        return
+    cs = an.calls(f, SUMMARIZE)
+    ok = False
+    for b, i, p, rv, st in f.assigns():
+        if p[0] == 0 and rv["k"] == "aggregate" and rv.get("variant") == "Ok":
+            ok = len(cs) >= 1 and any(f.dominates(cb, b) for cb, _ in cs)
+    chk.ob("C10.c", "Runner::run/summary-before-Ok", ok, f.loc(), "summarize_skipped must dominate the construction of Ok(scs)")
+    good = False
+    for b, pieces, phs, t in an.format_calls(s):
+        srcs = fmt_arg_sources(s, t)
+        if "field:skipped" in srcs and "field:sites" in srcs:
+            good = True
+    chk.ob("C10.c", "summarize_skipped/reports-skipped-and-sites", good, s.loc(), "the summary must display self.skipped and self.sites")
+
+
+def no_partial_output(chk, rule, fn_path, producer, writers):
+    """(i) the continue edge of `producer(..)?` dominates every writer call W; (ii) after W nothing but W's own `?`,
+    drops and Ok(()) is reachable; (iii) W is the only call that can reach stdout in this function"""
+    f = chk.fn(fn_path)
+    if f is None:
+        return
+    short = fn_path.split("::")[-2] + "::" + fn_path.split("::")[-1]
+    prod = an.calls(f, producer)
+    ws = []
+    for w in writers:
+        ws += an.calls(f, w)
+    if len(prod) != 1 or not ws:
+        chk.fail(rule, "%s/producer-and-writer" % short, f.loc(), "expected one producer call (%s) and >= 1 writer call; found %d / %d" % (producer, len(prod), len(ws)))
+        return
+    pb, pt = prod[0]
+    tb = an.try_branch_of(f, pb)
+    if tb is None:
+        chk.fail(rule, "%s/producer?-missing" % short, f.loc(pb), "the producer's Result is not propagated with `?`")
+        return
+    _, sb, cont, brk = tb
+    for wb, wt in ws:
+        chk.saw_calls()
+        chk.ob(rule, "%s/write-after-producer-succeeded" % short, an.dominated_by_edge(f, sb, cont, wb), f.loc(wb),
+               "the stdout writer must be dominated by the success edge of %s(..)?" % producer.split("::")[-1])
+        # (ii) after W
+        after = set()
+        for s in f.succ.get(wb, []):
+            after |= f.reachable_from(s)
+        offenders = []
+        for b in after:
+            t = f.term(b)
+            if t["k"] == "call":
+                c = t["callee"]
+                if callee_is(c, N.TRY_BRANCH, N.FROM_RESIDUAL) or callee_name(c).startswith("core::convert::") or callee_name(c).startswith("<anyhow::Error as core::convert::From"):
+                    continue
+                offenders.append(callee_name(c))
+        chk.ob(rule, "%s/nothing-fallible-after-write" % short, not offenders, f.loc(wb),
+               "after the writer only its own `?` and drops may follow, so a failing run never leaves a spectrum on stdout (calls after the write: %s)" % offenders)
+    # the Break edge of the producer does not reach a writer
+    br = f.reachable_from(brk)
+    chk.ob(rule, "%s/failed-producer-writes-nothing" % short, not any(wb in br for wb, _ in ws), f.loc(pb), "the error edge of the producer must not reach the writer")
+
+
+def who_may_write(chk, rule):
+    prog = chk.prog
+    allowed = {"sfs_core::spectrum::io::write::Builder::write_to_stdout", "sfs::stat::runner::Runner::<std::io::stdio::StdoutLock<'static>>::new"}
+    n_eprint = 0
+    for f in prog.fn_list:
+        for b, t in f.calls():
+            c = t["callee"]
+            if callee_is(c, N.STDOUT):
+                chk.saw_calls()
+                chk.ob(rule, "stdout()/caller=%s" % f.path, f.path in allowed, f.loc(b),
+                       "io::stdout() may only be called by the spectrum writer and the stat runner constructor")
+            if callee_is(c, N.PRINT):
+                chk.ob(rule, "print!/caller=%s" % f.path, False, f.loc(b), "print!/println! writes to stdout outside the two reviewed writers")
+            if callee_is(c, N.EPRINT):
+                n_eprint += 1
+    # positive control for the name matcher of the zero-count rule: the sibling `_eprint` must be found
+    chk.ob(rule, "print!-absent(control:_eprint-found=%s)" % (n_eprint >= 1), n_eprint >= 1, "",
+           "zero calls of std::io::stdio::_print; the same matcher finds %d calls of its sibling _eprint (positive control)" % n_eprint, nontrivial=False)
+
+
+def exit_status(chk, rule):
+    f = chk.fn("sfs::main")
+    if f is None:
+        return
+    runs = an.calls(f, "sfs::Cli::run")
+    if len(runs) != 1:
+        chk.fail(rule, "main/Cli::run", f.loc(), "expected one Cli::run call")
+        return
+    rb, rt = runs[0]
+    sws = an.switches_on_call_result(f, rb)
+    if not sws:
+        chk.fail(rule, "main/match-on-result", f.loc(rb), "main does not match on Cli::run's result")
+        return
+    sb, s = sws[0]
+    err_t = an.variant_target(f, sb, "Err")
+    region = f.reachable_from(err_t)
+    exits = [(b, t) for b, t in f.calls() if b in region and callee_is(t["callee"], N.EXIT)]
+    rets = [b for b in region if f.term(b)["k"] == "return"]
+    ok = bool(exits) and not rets and all(isinstance(const_val(t["args"][0]), int) and const_val(t["args"][0]) != 0 for _, t in exits)
+    # every path from err_t hits an exit: no return reachable (checked) and no infinite loop possible in loop-free region
+    chk.ob(rule, "main/Err->exit(nonzero)", ok, f.loc(err_t), "the Err edge must reach process::exit(c) with constant c != 0 on every path (exits: %s, returns reachable: %s)" % ([ostr(t["args"][0]) for _, t in exits], rets))
+    pr = [(b, t) for b, t in f.calls() if b in region and callee_is(t["callee"], N.EPRINT)]
+    ok2 = bool(pr) and all(any(f.dominates(pb, eb) for pb, _ in pr) for eb, _ in exits)
+    srcs = set()
+    for b, pieces, phs, t in an.format_calls(f):
+        if b in region:
+            sl, info = f.slice_locals(t["args"][1])
+            for l in sl:
+                if "anyhow::Error" in f.local_ty(l):
+                    srcs.add("error")
+    chk.ob(rule, "main/Err->diagnostic-on-stderr", ok2 and "error" in srcs, f.loc(err_t), "the error must be printed with eprintln! before exiting")
+
+
+# ====================================================================================
+# C11
+# ====================================================================================
+SET_ZERO = "sfs_core::spectrum::count::Count::set_zero"
+SITE_READER = "sfs_core::input::site::reader::Reader"
+
+
+def check_C11(chk):
+    chk.explanation = (
+        "Structural clauses of C11 (hand-written resets): (a) Reader::reset dominates every other use of counts/totals/skipped_samples and the "
+        "genotype read in read_site; (b) every field of site::Reader written during read_site (except the stream cursor `reader` and the "
+        "`projection` scratch, handled by (c)) is re-initialised by reset (set_zero stores const 0 to every element, Vec::clear); "
+        "(c) project_unchecked zeroes to_buf before every projection and ProjectIter starts at index 0; (d) every field of the per-run structs "
+        "written per record is reset, a stream cursor, or an additive counter; (e) the workspace has no mutable global state besides the "
+        "input-independent factorial table.")
+    chk.not_decided = "numeric additivity of projected sites up to floating-point summation order; noodles' internal record buffers"
+    c11a(chk)
+    c11b(chk)
+    c11c(chk)
+    c11d(chk)
+    c11e(chk)
+    for r, n in (("C11.a", 2), ("C11.b", 4), ("C11.c", 3), ("C11.d", 4), ("C11.e", 1)):
+        chk.floor(r, n)
+
+
+def c11a(chk):
+    f = chk.fn(READ_SITE)
+    if f is None:
+        return
+    rs = an.calls(f, RESET)
+    chk.ob("C11.a", "read_site/reset-called-once", len(rs) == 1 and an.arg_pointee(f, rs[0][1], 0) == (1, (("deref",),)) if rs else False, f.loc(), "read_site must call self.reset() (found %d calls)" % len(rs))
+    if len(rs) != 1:
+        return
+    rb = rs[0][0]
+    # every other block touching self.* state or reading genotypes is dominated by the block after reset
+    after = f.succ[rb][0]
+    bad = []
+    n = 0
+    for b in f.nodes():
+        touches = False
+        for s in f.stmts(b):
+            if s["k"] == "assign":
+                ps = [f.canon(P(s["place"]))]
+                rv = s["rv"]
+                if rv["k"] in ("ref", "rawptr", "discr"):
+                    ps.append(f.canon(P(rv["place"])))
+                from facts import rv_operands
+                for o in rv_operands(rv):
+                    p = op_place(o)
+                    if p:
+                        ps.append(f.canon(p))
+                if any(an.self_field(p) in ("counts", "totals", "skipped_samples", "reader", "projection") for p in ps):
+                    touches = True
+        t = f.term(b)
+        if t["k"] == "call" and b != rb:
+            touches = True
+        if touches:
+            n += 1
+            if b == rb:
+                # statements in reset's own block precede the call only if they do not touch state
+                bad.append(b)
+            elif not f.dominates(after, b):
+                bad.append(b)
+    chk.ob("C11.a", "read_site/reset-first", not bad, f.loc(rb),
+           "self.reset() must dominate every other statement that touches reader state or calls anything (%d blocks examined, offenders: %s)" % (n, [f.loc(b) for b in bad]))
+
+
+def zeroing_summary(chk, g):
+    """is g `Count::set_zero`-like: stores const 0 to every element of iter_mut() of the whole vector?"""
+    if g is None:
+        return False, "missing"
+    fe = an.calls(g, N.FOR_EACH)
+    if len(fe) != 1:
+        return False, "no single for_each"
+    t = fe[0][1]
+    # receiver: iter_mut over deref_mut of self.0
+    sl, info = g.slice_locals(t["args"][0])
+    names = [callee_name(c["callee"]) for _, c in info["calls"]]
+    whole = any(n == N.SLICE_ITER_MUT for n in names) and not any(x in n for n in names for x in ("skip", "take", "step_by", "filter", "rev", "split", "chunks"))
+    self0 = ("sfs_core::spectrum::count::Count", "0") in info["fields"]
+    cl = None
+    for a in t["args"]:
+        l = op_local(a)
+        if l is not None and "closure" in g.local_ty(l):
+            d = g.single_def(l)
+            if d and d[0] == "assign" and d[3]["k"] == "aggregate":
+                cl = chk.prog.fn(d[3]["closure"])
+    stores = []
+    if cl is not None:
+        for b, i, p, rv, s in cl.assigns():
+            if p == (2, (("deref",),)):
+                stores.append(const_val(rv["op"]) if rv["k"] == "use" else "nonconst")
+    ok = whole and self0 and stores == [0]
+    return ok, "iter_mut over whole self.0=%s/%s, closure stores=%s" % (whole, self0, stores)
+
+
+def c11b(chk):
+    f = chk.fn(READ_SITE)
+    r = chk.fn(RESET)
+    if f is None or r is None:
+        return
+    W = {}
+    for fld, how, b in an.self_field_writes(chk.prog, f, include_calls=False):
+        W.setdefault(fld, set()).add(how)
+    # &mut self passed to reset is not a write "during" the record; other &mut self calls would be
+    for b, t in f.calls():
+        if callee_is(t["callee"], RESET):
+            continue
+        for ai, a in enumerate(t["args"]):
+            l = op_local(a)
+            if l is not None and f.local_ty(l).startswith("&mut") and f.resolve_ptr(l) == (1, (("deref",),)):
+                for g in chk.prog.call_targets(f, t):
+                    for fld, how, b2 in an.self_field_writes(chk.prog, g):
+                        W.setdefault(fld, set()).add("via:" + g.path)
+    Z = {}
+    ok_zero, why = zeroing_summary(chk, chk.fn(SET_ZERO))
+    chk.ob("C11.b", "Count::set_zero/zeroes-every-element", ok_zero, chk.fn(SET_ZERO).loc() if chk.fn(SET_ZERO) else "", why)
+    for b, t in r.calls():
+        tgt = an.arg_pointee(r, t, 0)
+        fld = an.self_field(tgt) if tgt else None
+        if fld and len(tgt[1]) == 2:
+            if callee_is(t["callee"], SET_ZERO) and ok_zero:
+                Z[fld] = "set_zero"
+            elif callee_is(t["callee"], N.VEC_CLEAR):
+                Z[fld] = "clear"
+    exempt = {"reader": "stream cursor owned by the genotype reader", "projection": "scratch buffer, reset by project_unchecked (C11.c)"}
+    for fld in sorted(W):
+        if fld in exempt:
+            chk.ob("C11.b", "read_site/field(%s)/exempt" % fld, True, f.loc(), "written via %s; %s" % (sorted(W[fld]), exempt[fld]), nontrivial=False)
+            continue
+        chk.ob("C11.b", "read_site/field(%s)/reset" % fld, fld in Z, f.loc(),
+               "field %s is written while reading a record (%s) and must be re-initialised by Reader::reset (reset covers: %s)" % (fld, sorted(W[fld]), Z))
+    chk.extra["C11_written"] = sorted(W)
+    chk.extra["C11_reset"] = Z
+    # reset has no conditional paths: all three resets on the single path
+    chk.ob("C11.b", "reset/straight-line", not list(r.switches()), r.loc(), "reset must perform its re-initialisations unconditionally")
+
+
+def c11c(chk):
+    g = chk.fn(PP_PROJECT_UNCHECKED)
+    if g is None:
+        return
+    zs = [(b, t) for b, t in an.calls(g, SET_ZERO) if an.self_field(an.arg_pointee(g, t, 0) or (0, ())) == "to_buf"]
+    news = an.calls(g, PROJECTED_NEW)
+    ok = len(zs) >= 1 and len(news) == 1 and any(g.dominates(zb, news[0][0]) and zb != news[0][0] for zb, _ in zs)
+    chk.ob("C11.c", "project_unchecked/to_buf-zeroed-before-use", ok, g.loc(), "self.to_buf.set_zero() must dominate Projected::new_unchecked(.., &mut self.to_buf)")
+    pi = chk.fn(PITER_NEW)
+    if pi is not None:
+        idx = None
+        for b, i, p, rv, s in pi.assigns():
+            if rv["k"] == "aggregate" and rv["akind"] == "adt" and "index" in rv.get("fields", []):
+                idx = const_val(rv["ops"][rv["fields"].index("index")])
+        chk.ob("C11.c", "ProjectIter::new_unchecked/index=0", idx == 0, pi.loc(), "a fresh projection iterator starts at index 0 (found %s)" % idx)
+    # fields of PartialProjection / Projection written after construction
+    written = set()
+    for fn in chk.prog.fn_list:
+        io = fn.impl_of
+        if not io or io.get("self_adt") not in ("sfs_core::spectrum::project::PartialProjection", "sfs_core::spectrum::project::Projection"):
+            continue
+        if fn.kind == "Closure" or fn.derived:
+            continue
+        if not fn.locals[1]["ty"].startswith("&mut") if fn.argc >= 1 else True:
+            continue
+        for fld, how, b in an.self_field_writes(chk.prog, fn):
+            written.add((io["self_adt"].split("::")[-1], fld))
+    ok = written <= {("PartialProjection", "to_buf"), ("Projection", "inner")}
+    chk.ob("C11.c", "projection/only-to_buf-mutated", ok, "", "fields of the projection structs mutated through &mut self: %s" % sorted(written))
+
+
+def c11d(chk):
+    prog = chk.prog
+    # site::Reader: fields and their treatment
+    adt = prog.adts.get(SITE_READER)
+    if adt is None:
+        chk.fail("C11.d", "site::Reader/ANCHOR-MISSING", "", "ADT not found")
+        return
+    fields = [f["name"] for f in adt["variants"][0]["fields"]]
+    reviewed = {"reader": "stream cursor (Box<dyn genotype::Reader>)", "sample_map": "never written after construction",
+                "counts": "reset", "totals": "reset", "projection": "scratch zeroed per use", "skipped_samples": "reset"}
+    for fld in fields:
+        chk.ob("C11.d", "site::Reader/field(%s)/classified" % fld, fld in reviewed, "%s:%d" % (adt["span"]["file"], adt["span"]["line"]),
+               "every field of site::Reader must be classified (reset / cursor / immutable); a new field is reported here (%s)" % reviewed.get(fld, "UNCLASSIFIED"))
+    f = chk.fn(READ_SITE)
+    if f is not None:
+        w = {fld for fld, how, b in an.self_field_writes(prog, f)}
+        chk.ob("C11.d", "site::Reader/sample_map-immutable", "sample_map" not in w, f.loc(), "sample_map must not be written while reading")
+    # create::Runner: fields written in run/handle_*: only additive counters
+    radt = prog.adts.get(RUNNER_STRUCT)
+    if radt is None:
+        chk.fail("C11.d", "create::Runner/ANCHOR-MISSING", "", "ADT not found")
+        return
+    rfields = [x["name"] for x in radt["variants"][0]["fields"]]
+    rreviewed = {"reader": "site reader (see above)", "strict": "read-only flag", "sites": "additive counter", "skipped": "additive counter"}
+    for fld in rfields:
+        chk.ob("C11.d", "create::Runner/field(%s)/classified" % fld, fld in rreviewed, "%s:%d" % (radt["span"]["file"], radt["span"]["line"]), rreviewed.get(fld, "UNCLASSIFIED field: per-record state must be reset, a cursor or an additive counter"))
+    run = chk.fn(RUNNER_RUN)
+    if run is not None:
+        w = {}
+        for fld, how, b in an.self_field_writes(prog, run):
+            w.setdefault(fld, set()).add(how)
+        for fld in sorted(w):
+            if fld == "reader":
+                ok = True
+            elif fld in ("sites", "skipped"):
+                owner = run if fld == "sites" else prog.fn(HANDLE_SKIPPED)
+                inc, bad = counter_increments(owner, fld) if owner else ([], [1])
+                ok = bool(inc) and not bad
+            else:
+                ok = False
+            chk.ob("C11.d", "create::Runner/written(%s)/additive-or-cursor" % fld, ok, run.loc(), "field written per record must be the cursor or an `x = x + 1` counter (how: %s)" % sorted(w[fld]))
+    # vcf / bcf readers: all fields are noodles-owned cursors/buffers or immutable
+    for rp in ("sfs_core::input::genotype::reader::vcf::Reader", "sfs_core::input::genotype::reader::bcf::Reader"):
+        a = prog.adts.get(rp)
+        if a is None:
+            chk.fail("C11.d", "%s/ANCHOR-MISSING" % rp, "", "ADT not found")
+            continue
+        names = {x["name"] for x in a["variants"][0]["fields"]}
+        allowed = {"inner", "header", "string_maps", "samples", "buf"}
+        chk.ob("C11.d", "%s/fields" % rp.split("::")[-2], names <= allowed, "%s:%d" % (a["span"]["file"], a["span"]["line"]),
+               "genotype readers may only hold the noodles reader, header, string maps, sample names and the record buffer (found %s)" % sorted(names))
+
+
+def c11e(chk):
+    prog = chk.prog
+    statics = [c for c in prog.consts.values() if c["kind"].startswith("Static")]
+    allowed = {"sfs_core::utils::factorial::precomputed::PRECOMPUTED"}
+    import re
+    for s in statics:
+        clap_default = re.match(r"^<sfs::[\w:]+ as clap_builder::derive::Args>::augment_args(_for_update)?::DEFAULT_VALUE$", s["path"]) is not None
+        chk.ob("C11.e", "static(%s)" % s["path"], s["path"] in allowed or clap_default, "%s:%d" % (s["span"]["file"], s["span"]["line"]),
+               "statics must be the input-independent factorial table or clap-derive's default-value cells (type %s)" % s["ty"], nontrivial=not clap_default)
+    # interior mutability / sync primitives in workspace ADT fields and locals
+    bad = []
+    pats = ("core::cell::Cell<", "core::cell::RefCell<", "std::sync::Mutex<", "std::sync::RwLock<", "core::sync::atomic::Atomic", "std::thread::LocalKey", "std::sync::poison::mutex::Mutex<", "std::sync::poison::rwlock::RwLock<")
+    for a in prog.adts.values():
+        for v in a["variants"]:
+            for fld in v["fields"]:
+                if any(p in fld["ty"] for p in pats):
+                    bad.append("%s.%s: %s" % (a["path"], fld["name"], fld["ty"]))
+    for f in prog.fn_list:
+        if f.derived:
+            continue
+        for l in f.locals:
+            if any(p in l["ty"] for p in pats) and "clap" not in l["ty"] and "std::io::stdio" not in l["ty"]:
+                bad.append("%s local: %s" % (f.path, l["ty"][:80]))
+    chk.ob("C11.e", "no-interior-mutable-state", not bad, "", "Cell/RefCell/Mutex/RwLock/Atomic/thread_local in workspace types: %s" % bad[:6])
